@@ -337,6 +337,37 @@ example :
   rw [omega_diag_update_reads_back_partial r ps hok (by intro p hp; simp [ps] at hp; rcases hp with rfl | rfl <;> decide) hrep]
   decide
 
+/-! ### `$OMEGA` / `$SIGMA BLOCK(n)`: fixedness -/
+
+/-- `omega_block_fix_reads_back`: for every BLOCK record — any number of `omega` nodes, FIX written on the
+    header, after an init, or inside the parentheses before/after the value, any blanks/comments — after
+    the BLOCK branch of `OmegaRecord.update` with new fixedness `b` the reader's `_block_flags` reports `b`
+    (when no `(v)xn` node has to be split). -/
+theorem omega_block_fix_reads_back (r : List DNode) (vals : List OParam) (f b : Bool)
+    (h : blockFix r = .ok f) (hb : hasBlock r = true) (hn : noSplitB r vals = true) :
+    ∃ r', updBlock r vals b = .ok r' ∧ blockFix r' = .ok b := by
+  obtain ⟨h1, h2, h3⟩ := updBlockVals_flags r vals hn
+  refine ⟨setBlockFix f (updBlockVals r vals) b, by simp [updBlock, h], ?_⟩
+  apply setBlockFix_reads_back
+  · unfold blockFix at h ⊢
+    rw [h1, h3]
+    exact h
+  · rw [h2]; exact hb
+
+/-- non-vacuity, the layouts the seeded mutation needed: `BLOCK(2) 0.1 0.01 (0.2 FIX)`, unfixed, and
+    `BLOCK(2) 0.1 0.01 0.2`, fixed -/
+example :
+    let r := [DNode.tok tokWs, .tok nBlock, .tok tokWs, .item [nNum .init "0.1" 1 10], .tok tokWs,
+              .item [nNum .init "0.01" 1 100], .tok tokWs,
+              .item [tokLpar, nNum .init "0.2" 1 5, tokWs, tokFix, tokRpar], .tok nNewline]
+    let vals := [oP 1 10 "0.1" false, oP 1 100 "0.01" false, oP 1 5 "0.2" false]
+    blockFix r = .ok true ∧ hasBlock r = true ∧ noSplitB r vals = true ∧
+      updBlock r vals false = .ok [DNode.tok tokWs, .tok nBlock, .tok tokWs, .item [nNum .init "0.1" 1 10], .tok tokWs,
+              .item [nNum .init "0.01" 1 100], .tok tokWs,
+              .item [tokLpar, nNum .init "0.2" 1 5, tokRpar], .tok nNewline] ∧
+      (updBlock r vals true).map blockFix = .ok (.ok true) := by
+  decide
+
 /-! ### `$OMEGA` / `$SIGMA BLOCK(n)`: scale conversions (every block size, entry by entry) -/
 
 section omega
